@@ -96,7 +96,7 @@ def oracles(scn, raw):
                 if not (ev == 'End' and e.get('called')) and not (ev == 'Exit' and e.get('called')):
                     trigs[e['peer']].append(e['trig'])
             if ev == 'Exit':
-                exits[e['peer']] = (e['vt'], e['reason'], e['seq'])
+                exits[e['peer']] = (e['vt'], e['reason'], e['seq'], e['trig'].get('k'))
         elif src == 'drv' and ev == 'Send':
             sends[e['peer']].append((e['seq'], e['vt'], e['f']))
         elif src == 'drv' and ev == 'Disk':
@@ -307,10 +307,12 @@ def oracle_c20(scn, raw, info):
         nonka = [vt for seq, vt, f in info['sends'][a] if f['k'] != 'KeepAlive' and vt <= end]
         last = max(nonka) if nonka else born
         # every interval with a non keep-alive frame => never closed for inactivity
-        if ex and 'Keep alive' in ex[1]:
+        if ex and ex[3] == 'TickKA':          # the task ended on its keep-alive timer (decided by the trigger, not by the error text)
             if ex[0] - last > 3 * KA + 50:
                 out.append(('C20', 'connection %s closed %d ms after its last message (more than three intervals)' % (a, ex[0] - last)))
-            if ex[0] - last < 2 * KA - 50:
+            # "a connection delivering any other message at least once per interval is never closed for inactivity":
+            # closing needs at least one full interval of silence (the client may be quicker than three intervals)
+            if ex[0] - last < KA - 50:
                 out.append(('C20', 'connection %s closed for inactivity only %d ms after a message' % (a, ex[0] - last)))
         if not ex and raw[-1]['vt'] - last > 3 * KA + 50:
             out.append(('C20', 'connection %s is still open %d ms after its last message' % (a, raw[-1]['vt'] - last)))
@@ -625,7 +627,7 @@ def check_c10(tier, replay=None):
     m = mult(tier)
     plan = [(G.honest, 20 * m, {}), (G.adversarial, 20 * m, {}), (G.reassign, 25 * m, {}), (G.endgame_cancel, 12 * m, {}), (G.choked_delivery, 10 * m, {}), (G.delayed_reassign, 8 * m, {}), ('model', 20 * m, {})]
     return swarm_check('C10', tier, plan, need_actions=('HPiece', 'HReply'), kinds= ['Unchoke', 'Choke', 'Bitfield', 'Piece'],
-                       design_over=dict(NBlocks='N3b', Fuel=6, Peers='{a}', BFMenu='{{1, 2}}') if tier == 'quick' else dict(NBlocks='N3b', Fuel=5, BFMenu='{{1, 2}}'),
+                       design_over=dict(NBlocks='N3b', Fuel=6, Peers='{a}', BFMenu='{{1, 2}}') if tier == 'quick' else dict(NBlocks='N3b', Fuel=4, BFMenu='{{1, 2}}'),   # 3.2 M states
                        vacuity={'requests_written': 100, 'completions': 20}, replay=replay,
                        rule='C10: requests on the wire are proper blocks of the assigned piece; RequestsTile/RxShape and the logged requested/left queues are checked at every task step.')
 
